@@ -165,6 +165,12 @@ func (g *gen) literal(t string, depth int) string {
 	case "ID":
 		return []string{`"id-1"`, `"7"`, `7`}[g.pick(3, "iddef")]
 	default: // String and custom scalars
+		if core != "String" {
+			// a custom scalar takes any literal: numbers, booleans, lists, objects
+			if v := g.pick(8, "scalardef"); v < 5 {
+				return []string{`{archived: false}`, `[{by: "id"}, 2]`, `42`, `true`, `[]`}[v]
+			}
+		}
 		return []string{`"abc"`, `""`, `"with \"quote\""`, `"uni ü"`, `"a\nb"`, `"back\\slash"`, `"5"`, `"true"`}[g.pick(8, "strdef")]
 	}
 }
